@@ -66,7 +66,7 @@ fn family<T: UniMerge + UniIngest>(checks: &mut Vec<Box<dyn Check>>, tier: Tier)
     }
     if !q {
         checks.push(merge_check::<T>("C02", "two13", 2, 9, filter));
-        checks.push(merge_check::<T>("C02", "tri", 3, 8, filter));
+        checks.push(merge_check::<T>("C02", "tri", 3, if T::ORDER >= 5 { 7 } else { 8 }, filter));
     } else {
         checks.push(merge_check::<T>("C02", "two13", 2, 7, filter));
     }
